@@ -27,7 +27,11 @@ RULE = ("cases drawn from one PRNG (VERIF_SEED). COMPARED line by line with the 
         "header inside a larger buffer (case-chosen), as framed transports do; "
         "op11 the same calls under truncate/flip/splice/replace of request or response bytes and status overrides "
         "(must be a value, never a panic); op12 multipart requests with good/missing/malformed boundary and damaged bodies; "
-        "op13-15,17 text/byte streams in and out. A case is non-trivial when its payload is non-empty; distinct = distinct case hash.")
+        "op13-15,17 text/byte streams in and out with chunk sizes around 8191..8194, 16383..16386, 65535..65537 and multi-byte "
+        "characters across power-of-two offsets, the transport re-cutting request and response bodies at 1/7/16/8192/whole; op21 "
+        "custom FromServerFnError types with Json/Cbor/MsgPack/Postcard encoders (messages >= 128 bytes, integers >= 128); op19 "
+        "histories: several calls on one thread, including calls that cannot be encoded/decoded on purpose (op20), each call "
+        "checked against its direct call. A case is non-trivial when its payload is non-empty; distinct = distinct case hash.")
 TRUSTED = [
     "Coq 8.16.1 kernel (coqc; coqchk on the thorough tier); no axioms: all theorems of Properties_C13.v are 'Closed under the global context'",
     "extraction to OCaml with ExtrOcamlBasic only, ocamlfind ocamlopt 4.13.1, extract/driver.ml sexp I/O",
@@ -419,18 +423,18 @@ def gen_opt_args(rng):
 
 def gen_typed(rng):
     r = rng.random()
-    if r < 0.30:
+    if r < 0.22:
         return dict(case=[10, rng.randrange(len(PAIRS)), gen_val(rng), gen_plan(rng), gen_frame(rng)],
                     kind="typed-remote-vs-direct", compare=False)
-    if r < 0.50:
+    if r < 0.36:
         return dict(case=[18, rng.randrange(len(OPT_FNS))] + gen_opt_args(rng) + [gen_frame(rng)], kind="option-args",
                     compare=False)
-    if r < 0.80:
+    if r < 0.58:
         where = rng.choice([0, 0, 1, 1, 2])
         arg = gen_edit(rng) if where < 2 else rng.choice(STATUSES + [rng.randint(100, 999)])
         return dict(case=[11, rng.randrange(len(PAIRS)), gen_val(rng), gen_plan(rng), where, arg, gen_frame(rng)],
                     kind="typed-corrupted", compare=False)
-    if r < 0.86:
+    if r < 0.63:
         ct = rng.choice(MP_CTS)
         if rng.random() < 0.2:
             ct = bytes(b for b in (rng.randint(32, 126) for _ in range(rng.randint(0, 30))))
@@ -444,24 +448,109 @@ def gen_typed(rng):
         elif rr < 0.6:
             body = bytes(rng.randint(0, 255) for _ in range(rng.randint(0, 60)))
         return dict(case=[12, [] if rng.random() < 0.1 else [list(ct)], list(body)], kind="multipart-server", compare=False)
-    if r < 0.92:
-        chunks = [C.norm(gen_str(rng, 24)) for _ in range(rng.choice([0, 1, 2, 3, 5]))]
-        if rng.random() < 0.4:       # multi-byte characters around the old 16-byte cut
-            chunks.append(C.norm("a" * rng.randint(13, 16) + rng.choice(["é", "€", "😀"]) + "b" * rng.randint(10, 20) + "ü"))
-        return dict(case=[13, chunks], kind="text-stream-echo", compare=False)
-    if r < 0.94:
-        return dict(case=[17, [list(rand_bytes(rng, 40)) for _ in range(rng.choice([0, 1, 2, 3, 6]))]], kind="byte-stream-in",
-                    compare=False)
-    if r < 0.97:
-        return dict(case=[14, [list(rand_bytes(rng, 40)) for _ in range(rng.choice([0, 1, 2, 3, 6]))]], kind="byte-stream-out",
-                    compare=False)
+    if r < 0.78:
+        return gen_stream(rng)
+    if r < 0.88:
+        return dict(case=gen_app_err(rng), kind="custom-error-type", compare=False)
+    return gen_history(rng)
+
+
+RECHUNK_SIZES = [0, 0, 1, 7, 16, 8192, 1 << 30]
+BOUNDARIES = [16, 64, 1024, 4096, 8192, 16384, 32768, 65536]
+MB = ["é", "€", "😀", "ü", "中"]
+
+
+def seg(n, s):
+    return [n, C.norm(s) if isinstance(s, str) else list(s)]
+
+
+def chunk_bytes(ch):
+    return b"".join(bytes(u) * n for (n, u) in ch)
+
+
+def gen_text_chunk(rng, big_ok=True):
+    """a text chunk as segments; often long, with a multi-byte character across a power-of-two offset"""
+    r = rng.random()
+    if r < 0.35 or not big_ok:
+        return [seg(1, gen_str(rng, 24))]
+    B = rng.choice(BOUNDARIES) * rng.choice([1, 1, 1, 2, 3])
+    ch = rng.choice(MB)
+    j = rng.randint(1, len(ch.encode()) - 1)            # bytes of `ch` before the boundary
+    out = []
+    if rng.random() < 0.3:                              # a run of 3-byte characters instead of ASCII filler
+        k = (B - j) // 3
+        out += [seg(k, "€"), seg(B - j - 3 * k, "a")]
+    else:
+        out += [seg(B - j, "a")]
+    out += [seg(1, ch), seg(rng.choice([0, 1, 5, rng.randint(0, 40)]), "b")]
+    if rng.random() < 0.3:
+        out += [seg(rng.choice([8191, 8192, 8193, 8194, 16383, 16386, 65535, 65537]) % 70000, "c"), seg(1, rng.choice(MB))]
+    return [x for x in out if x[0] > 0]
+
+
+def gen_byte_chunk(rng):
+    r = rng.random()
+    if r < 0.4:
+        return [seg(1, rand_bytes(rng, 40))]
+    n = rng.choice([8191, 8192, 8193, 8194, 16383, 16384, 16385, 16386, 65535, 65536, 65537])
+    return [seg(n, bytes([rng.randint(0, 255)])), seg(1, rand_bytes(rng, 5))]
+
+
+def gen_stream(rng):
+    rc = [rng.choice(RECHUNK_SIZES), rng.choice(RECHUNK_SIZES)]
+    r = rng.random()
+    nch = rng.choice([0, 1, 1, 2, 3, 5])
+    if r < 0.3:
+        return dict(case=[13, [gen_text_chunk(rng) for _ in range(nch)], rc], kind="text-stream-echo", compare=False)
+    if r < 0.5:
+        return dict(case=[14, [gen_byte_chunk(rng) for _ in range(nch)], rc], kind="byte-stream-out", compare=False)
+    if r < 0.65:
+        return dict(case=[17, [gen_byte_chunk(rng) for _ in range(nch)], rc], kind="byte-stream-in", compare=False)
     chunks = []
-    for _ in range(rng.choice([0, 1, 2, 3, 5])):
-        if rng.random() < 0.3:
-            chunks.append(C.norm("!" + str(rng.randint(1, 9)) + gen_str(rng, 8)))
+    for _ in range(nch):
+        if rng.random() < 0.25:
+            chunks.append([seg(1, "!" + str(rng.randint(1, 9)) + gen_str(rng, 8))])
         else:
-            chunks.append(C.norm(gen_str(rng, 12)))
-    return dict(case=[15, chunks], kind="text-stream-out", compare=False)
+            chunks.append(gen_text_chunk(rng))
+    return dict(case=[15, chunks, rc], kind="text-stream-out", compare=False)
+
+
+APP_FNS = ["json", "cbor", "msgpack", "postcard", "postcard(json in)", "msgpack(url in)"]
+
+
+def gen_app_err(rng):
+    """custom FromServerFnError types with text and binary encoders: long messages, integers >= 128, raw bytes"""
+    variant = rng.choice([0, 1, 1, 2, 2, 3, 3, 4])
+    what = gen_str(rng, 8) if rng.random() < 0.5 else gen_str(rng, 4) + "x" * rng.choice([120, 127, 128, 129, 200, 300])
+    code = rng.choice([0, 1, 127, 128, 255, 256, 65535, 2 ** 31, 2 ** 32 - 1, rng.getrandbits(32)])
+    many = list(rand_bytes(rng, 20)) if rng.random() < 0.7 else [rng.randint(128, 255)] * rng.choice([1, 127, 128, 200])
+    plan = [variant, u64(rng.choice([0, 127, 128, 2 ** 32, 2 ** 64 - 1, rng.getrandbits(64)])), C.norm(what), code, many,
+            rng.randint(1, 10)]
+    return [21, rng.randrange(len(APP_FNS)), plan, gen_frame(rng)]
+
+
+def gen_call(rng):
+    """an ordinary call usable inside a history (each is a case of its own op)"""
+    r = rng.random()
+    if r < 0.45:
+        pid = rng.choice([i for i, p in enumerate(PAIRS) if "json" in p or "serdelite" in p] if rng.random() < 0.7 else range(len(PAIRS)))
+        return [10, pid, gen_val(rng), gen_plan(rng), gen_frame(rng)]
+    if r < 0.65:
+        return [18, rng.randrange(len(OPT_FNS))] + gen_opt_args(rng) + [gen_frame(rng)]
+    if r < 0.8:
+        return gen_app_err(rng)
+    return [9, C.norm(glue_input(rng)), rng.choice([0, 1, 2])]
+
+
+def gen_history(rng):
+    """several calls on one thread; calls that cannot be encoded/decoded on purpose (op 20) are always followed by
+    ordinary ones, and every call of the history is checked against its direct call"""
+    calls = []
+    for _ in range(rng.choice([2, 3, 4, 6])):
+        if rng.random() < 0.4:
+            calls.append([20, rng.choice([0, 0, 1, 1, 2, 3]), rng.choice([0, 1, 100, 5000])])
+        calls.append(gen_call(rng))
+    return dict(case=[19] + calls, kind="call-history", compare=False)
 
 
 def generate(rng, tier):
@@ -683,6 +772,29 @@ def ref_typed_body(val, plan):
     return [1, [plan[0], plan[1]]]
 
 
+def fnv(b):
+    h = 0xCBF29CE484222325
+    for x in b:
+        h = ((h ^ x) * 0x100000001B3) & 0xFFFFFFFFFFFFFFFF
+    return h
+
+
+def ref_runs(items):
+    """[(data or None, err)] -> maximal data runs as [0, len, fnv] and error items as [1, err]"""
+    out, run = [], None
+    for data, err in items:
+        if data is not None:
+            run = (run or b"") + data
+        else:
+            if run:
+                out.append([0, len(run), u64(fnv(run))])
+            run = None
+            out.append([1, err])
+    if run:
+        out.append([0, len(run), u64(fnv(run))])
+    return out
+
+
 def ref_chunk(ch):
     b = bytes(ch)
     if len(b) >= 2 and b[0:1] == b"!" and 49 <= b[1] <= 57:
@@ -709,40 +821,40 @@ def oracle_typed(case, impl):
                 return "error response body is not a wire string"
             return None if t.split("|", 1)[0] in TAGS else "error response body is not a wire string"
         return None
-    if op == 13:
+    if op in (13, 14, 15, 17):
         remote, direct = impl
-        if direct[0] != 0 or remote[0] != 0:
-            return "text stream call failed"
-        def cat(items):
-            return b"".join(bytes(i[1]) for i in items if i[0] == 0)
-        want = b"".join(bytes(ch) for ch in case[1]).upper()
-        if cat(direct[1]) != want:
-            return "harness: direct text stream differs from the reference"
-        if any(i[0] == 1 for i in remote[1]):
-            return "remote text stream reports an error the direct stream does not"
-        return None if cat(remote[1]) == want else "remote text stream carries different text than the direct one"
-    if op == 14:
-        remote, direct = impl
-        if direct != [[0, ch] for ch in case[1]]:
-            return "harness: direct byte stream differs from the reference"
-        return None if remote == direct else "remote byte stream differs from the direct one"
-    if op == 18:
-        remote, direct = impl
-        if direct != [0, case[2:8]]:
-            return "harness: direct call differs from the reference (echo of the arguments)"
-        return None if remote == direct else "remote call result differs from the direct call (o_%s, frames %r)" % (
-            OPT_FNS[case[1] % len(OPT_FNS)], case[8] if len(case) > 8 else None)
-    if op == 17:
-        remote, direct = impl
-        want = [0, [b for ch in case[1] for b in ch]]
+        chunks = [chunk_bytes(ch) for ch in case[1]]
+        if op == 15:
+            items = [ref_chunk(list(ch)) for ch in chunks]
+            want = [0, ref_runs([(bytes(i[1]) if i[0] == 0 else None, i[1]) for i in items])]
+        elif op == 13:
+            want = [0, ref_runs([(ch.upper(), None) for ch in chunks])]
+        elif op == 14:
+            want = [0, ref_runs([(ch, None) for ch in chunks])]
+        else:
+            want = [0, ref_runs([(b"".join(chunks), None)])]
         if direct != want:
-            return "harness: direct byte-stream call differs from the reference"
-        return None if remote == direct else "remote call with a byte-stream argument differs from the direct call"
-    if op == 15:
+            return "harness: direct stream call differs from the reference"
+        # where the transport cuts a stream is not part of the contract: the data between two error items must be the same
+        return None if remote == direct else "remote stream delivers different data / errors than the direct call (re-chunk sizes %r)" % (case[2],)
+    if op == 19:
+        if len(impl) != len(case) - 1:
+            return "history: wrong number of observations"
+        for k, (sub, obs) in enumerate(zip(case[1:], impl)):
+            msg = oracle(dict(case=sub), obs)
+            if msg:
+                return "call %d of the history: %s" % (k + 1, msg)
+        return None
+    if op == 20:
+        # a value the encoding cannot carry: the call must still produce a value of the declared type (here: an Err), not a panic
+        return None if impl and impl[0] in (0, 1) else "unexpected observation"
+    if op == 21:
         remote, direct = impl
-        if direct != [0, [ref_chunk(ch) for ch in case[1]]]:
-            return "harness: direct text stream differs from the reference"
-        return None if remote == direct else "remote text stream (items and errors) differs from the direct one"
+        v, idv, what, code, many, kind = case[2]
+        want = {0: [0, code], 1: [1, [1, idv, what]], 2: [1, [2, code]], 3: [1, [3, many]]}.get(v, [1, [4, [kind, what]]])
+        if direct != want:
+            return "harness: direct call differs from the reference"
+        return None if remote == direct else "remote call result differs from the direct call (custom error type, %s encoder)" % APP_FNS[case[1] % len(APP_FNS)]
     return None
 
 
@@ -761,6 +873,16 @@ def classify(item, impl, model):
     """F-C13-e: serde_qs (the URL-encoded *input* codecs) cannot represent an empty vector (the field is
     omitted, decoding reports `missing field`) nor an empty optional string (comes back as None)."""
     case = item["case"]
+    if case[0] == 19 and not isinstance(impl, str) and len(impl) == len(case) - 1:
+        # a history belongs to the known class only if every failing call of it does
+        ids = []
+        for sub, obs in zip(case[1:], impl):
+            if oracle(dict(case=sub), obs):
+                ids.append(classify(dict(case=sub), obs, None))
+        return "F-C13-e" if ids and all(i == "F-C13-e" for i in ids) else None
+    if case[0] == 21 and not isinstance(impl, str) and case[1] % len(APP_FNS) == 5 and case[2][4] == []:
+        # the url-encoded plan has an empty Vec field
+        return "F-C13-e" if impl[0] == [1, [4, [8, list(b"missing field `many`")]]] else None
     if case[0] == 18 and not isinstance(impl, str) and (case[1] % len(OPT_FNS)) in OPT_URL:
         remote, direct = impl
         if remote[0] != 0 or direct[0] != 0:
@@ -1005,10 +1127,27 @@ def valid_case(item):
                     and _valid_u64(c[6]) and _is_opt(c[7], _valid_inner))
         if op == 12:
             return len(c) == 3 and _is_opt(c[1], _is_header) and _is_bytes(c[2])
-        if op in (13, 15):
-            return len(c) == 2 and all(_is_text(ch) for ch in c[1])
-        if op in (14, 17):
-            return len(c) == 2 and all(_is_bytes(ch) for ch in c[1])
+        if op in (13, 14, 15, 17):
+            if len(c) != 3 or not (isinstance(c[2], list) and len(c[2]) == 2 and all(x in RECHUNK_SIZES for x in c[2])):
+                return False
+            for ch in c[1]:
+                if not all(isinstance(sg, list) and len(sg) == 2 and isinstance(sg[0], int) and 0 <= sg[0] <= 200000
+                           and _is_bytes(sg[1]) for sg in ch):
+                    return False
+                if len(chunk_bytes(ch)) > 300000 or (op in (13, 15) and not _is_text(list(chunk_bytes(ch)))):
+                    return False
+            return True
+        if op == 19:
+            return len(c) >= 2 and all(isinstance(sub, list) and sub and sub[0] in (9, 10, 18, 20, 21)
+                                       and valid_case(dict(case=sub)) for sub in c[1:])
+        if op == 20:
+            return len(c) == 3 and c[1] in range(4) and isinstance(c[2], int) and 0 <= c[2] <= 5000
+        if op == 21:
+            if len(c) not in (3, 4) or (len(c) == 4 and not _valid_frame(c[3])):
+                return False
+            p = c[2]
+            return (isinstance(c[1], int) and 0 <= c[1] < len(APP_FNS) and len(p) == 6 and p[0] in range(5) and _valid_u64(p[1])
+                    and _is_text(p[2]) and isinstance(p[3], int) and 0 <= p[3] < 2 ** 32 and _is_bytes(p[4]) and p[5] in range(1, 11))
     except Exception:
         return False
     return False
@@ -1071,7 +1210,16 @@ def describe(it):
     if case[0] == 12:
         return "POST upload Content-Type=%r body=%r" % ([C.bs(x) for x in case[1]], C.bs(case[2]))
     if case[0] in (13, 14, 15, 17):
-        return "%s(%r) remote vs direct" % ({13: "echo_text", 14: "emit_bytes", 15: "text_out", 17: "count_bytes"}[case[0]], [C.bs(x) for x in case[1]])
+        return "%s(chunks as (repeat, unit) segments: %r) transport re-chunk sizes (request, response)=%r: remote vs direct" % (
+            {13: "echo_text", 14: "emit_bytes", 15: "text_out", 17: "count_bytes"}[case[0]],
+            [[(n, C.bs(u)) for (n, u) in ch] for ch in case[1]], case[2])
+    if case[0] == 19:
+        return "history on one thread: " + " ; THEN ".join(str(describe(dict(case=sub))) for sub in case[1:])
+    if case[0] == 20:
+        return ["poison_arg (JSON map with struct keys as argument)", "poison_result (same as result)", "nan_arg(NaN) over Json",
+                "deep (6 levels) over GetUrl"][case[1]] + " pad=%d: remote call must yield a value" % case[2]
+    if case[0] == 21:
+        return "e_%s(plan=%r) frames=%r: custom error type, remote vs direct" % (APP_FNS[case[1] % len(APP_FNS)], case[2], case[3:4])
     if case[0] == 9:
         return "Glue{%r}: run_on_client() through the loopback vs the body called directly" % (C.show_bytes(case[1]),)
     if case[0] == 6:
